@@ -231,6 +231,10 @@ class Run(object):
         self.fin_pending = True
         self.trace.append({'ev': 'PeerReset'})
 
+    def peer_deaf(self):
+        self._cur_sock().write_dead = True
+        self.trace.append({'ev': 'PeerDeaf'})
+
     def user_put(self, kind, f=()):
         self.p.send(user_pdu(kind, f))
         self.trace.append({'ev': 'UserPut', 'item': {'k': kind, 'f': list(f), 'pdvs': [], 'grey': False}})
